@@ -366,7 +366,7 @@ def check_cases(ctx, rep, cases, label):
 def _work(ctx, rep):
     """One worker's share (ctx.part of ctx.parts): a slice of the exhaustive core + its own random streams."""
     L = 2 if ctx.tier == 'quick' else 4
-    n_random = (3000 if ctx.tier == 'quick' else 800000) * ctx.scale // ctx.parts
+    n_random = (3000 if ctx.tier == 'quick' else 500000) * ctx.scale // ctx.parts
     n_natural = (300 if ctx.tier == 'quick' else 40000) * ctx.scale // ctx.parts
     buf, ncore = [], 0
     for i, case in enumerate(core_cases(L)):
